@@ -308,6 +308,54 @@ def lazy_harvester_stream(c, tmp, n):
         shutil.rmtree(d, ignore_errors=True)
 
 
+def derived_stream(c, tmp, n):
+    """A dataset DERIVED from a loaded one (extended along a coordinate, so that cells nobody filled are missing)
+    is a dataset like any other: saved and loaded again it has the same values -- whatever on-disk details xarray
+    remembers from the earlier load."""
+    import xarray as xr
+    import xyzpy
+    for i in range(n):
+        rng = c.rng
+        engine = rng.choice(["h5netcdf", "h5netcdf", "joblib"])
+        d = os.path.join(tmp, f"v{i}")
+        os.makedirs(d)
+        kind = rng.choice(["int", "int", "float", "uint8", "int32"])
+        a = sorted(rng.sample(range(10), rng.randint(1, 3)))
+        vals = {"int": np.array([10 * x + 1 for x in a]), "float": np.array([x / 4 for x in a]),
+                "uint8": np.array([x + 1 for x in a], dtype="uint8"),
+                "int32": np.array([x - 5 for x in a], dtype="int32")}[kind]
+        ds = xr.Dataset({"v": (("a",), vals), "w": (("a",), np.array([float(x) for x in a]))}, coords={"a": a})
+        how = rng.choice(["reindex", "merge", "combine_first"])
+        rep = {"stream": "derived-from-loaded", "engine": engine, "dtype": kind, "how": how, "a": a}
+        err, bad = None, None
+        try:
+            xyzpy.save_ds(ds, os.path.join(d, "first"), engine=engine)
+            loaded = xyzpy.load_ds(os.path.join(d, "first"), engine=engine)
+            extra = [x for x in range(10, 13)][:rng.randint(1, 2)]
+            other = xr.Dataset({"w": (("a",), np.array([float(x) for x in extra]))}, coords={"a": extra})
+            if how == "reindex":
+                derived = loaded.reindex(a=a + extra)
+            elif how == "merge":
+                derived = xr.merge([loaded, other])
+            else:
+                derived = loaded.combine_first(other)
+            want = {k: derived[k].values.tolist() for k in derived.data_vars}
+            xyzpy.save_ds(derived, os.path.join(d, "second"), engine=engine)
+            back = xyzpy.load_ds(os.path.join(d, "second"), engine=engine)
+            for k in derived.data_vars:
+                if not same_values(derived[k].values, back[k].values):
+                    bad = f"{k}: {want[k]} came back as {back[k].values.tolist()}"
+        except Exception as e:  # noqa
+            err = f"{type(e).__name__}: {str(e)[:160]}"
+        c.case(json.dumps(rep, sort_keys=True), nontrivial=True, sample=rep if i % 8 == 0 else None)
+        c.count("stream", "derived-from-loaded"); c.count("derived_dtype", kind)
+        if err is not None:
+            c.violation("derived-dataset-raised", err, rep)
+        elif bad:
+            c.violation("values-differ", "a dataset derived from a loaded one: " + bad, rep)
+        shutil.rmtree(d, ignore_errors=True)
+
+
 def run(tier, seed):
     c = core.Check("C14", tier, seed)
     gen_st = core.regen()
@@ -342,6 +390,7 @@ def run(tier, seed):
                 metas.append(rep)
         sync_conflict_stream(c, tmp, 12 if tier == "quick" and not c.broken else 80)
         lazy_harvester_stream(c, tmp, 12 if tier == "quick" and not c.broken else 80)
+        derived_stream(c, tmp, 16 if tier == "quick" and not c.broken else 120)
         bad, _ = core.safe_run_cases(c, "Prelude Names GenNames", pairs, preamble=PREAMBLE)
         for i in bad:
             c.obligation_broken("correspondence Model/Names.v (regenerated) vs manage.py",
